@@ -16,11 +16,20 @@ QUERIES = {'iter', 'len', 'sorted', 'list', 'tuple', 'set', 'frozenset', 'bool',
 COPIERS = {'dict'}
 
 
-def _is_identity_lambda(n):
-  return isinstance(n, ast.Lambda) and len(n.args.args) == 1 and isinstance(n.body, ast.Name) and n.body.id == n.args.args[0].arg
-
-
 _MOD = {}
+
+
+def _is_identity_lambda(n):
+  if isinstance(n, ast.Lambda) and len(n.args.args) == 1 and isinstance(n.body, ast.Name) and n.body.id == n.args.args[0].arg:
+    return True
+  # `lambda y: y` turned into a module-level `def _identity(x): return x`
+  mod = _MOD.get('fd')
+  if isinstance(n, ast.Name) and mod is not None and n.id in mod._funcs:
+    fn = mod._funcs[n.id].node
+    body = astu.strip_docstring(fn.body)
+    ps = astu.params(fn)
+    return len(ps) == 1 and len(body) == 1 and isinstance(body[0], ast.Return) and isinstance(body[0].value, ast.Name) and body[0].value.id == ps[0]
+  return False
 
 
 def _copier_helper(fn_node, depth=0):
@@ -52,7 +61,7 @@ def _is_copy_call(call, arg):
     return True
   if name in COPIERS and call.args and call.args[0] is arg:
     return True
-  if name.split('.')[-1] == 'tree_map' and len(call.args) >= 2 and _is_identity_lambda(call.args[0]) and arg in call.args[1:]:
+  if (name.split('.')[-1] == 'tree_map' or name in ('jax.tree.map', 'tree.map')) and len(call.args) >= 2 and _is_identity_lambda(call.args[0]) and arg in call.args[1:]:
     return True
   return False
 
@@ -375,7 +384,7 @@ def r3(R, repo):
   pm = mod.func('FrozenDict.pop')
   nd = types.single_def(pm.node, 'new_dict')
   muts = [x for x in astu.func_calls(pm) if isinstance(x.func, ast.Attribute) and x.func.attr in MUTATORS]
-  ok = isinstance(nd, ast.Call) and astu.call_name(nd) == 'dict' and all(astu.src(x.func.value) == 'new_dict' for x in muts)
+  ok = isinstance(nd, ast.Call) and (astu.call_name(nd) == 'dict' or (astu.call_tail(nd) == 'copy' and isinstance(nd.func, ast.Attribute) and not nd.args)) and all(astu.src(x.func.value) == 'new_dict' for x in muts)
   ctor = [x for x in astu.func_calls(pm) if astu.src(x.func) in ('type(self)', 'FrozenDict') and [astu.src(a) for a in x.args] == ['new_dict'] and not x.keywords]
   R.judge(nd is not None and bool(muts), ok and len(ctor) == 1, key_of(pm, 'pops from a copy and re-freezes'), pm, 'FrozenDict.pop must remove the key from a copy and build a new FrozenDict (with copying) from it')
   cp = mod.func('FrozenDict.copy')
